@@ -185,7 +185,7 @@ class FunctionVC:
             text, qual = contract.source
             self.fn = FunctionSource(contract.file, qual, text=text)
         else:
-            self.fn = FunctionSource(contract.file, contract.qual)
+            self.fn = FunctionSource(contract.file, contract.qual.split('@')[0])   # 'f@variant': a second contract on f
 
     # -- sinks --------------------------------------------------------------
     def add(self, o):
